@@ -65,7 +65,7 @@ Record Inv (rows : list nat) (sd : setdata) : Prop := mkInv {
   i_removed_rows : forall x, In x (sd_removed sd) -> In x rows;
   i_full : sd_full sd = true -> forall x, In x (abstract rows sd) -> In x (sd_items sd);
   i_absent : forall a, sd_absent sd = Some a -> forall x, In x a -> In x (sd_items sd) \/ ~ In x (abstract rows sd);
-  i_count : forall n, sd_count sd = Some n -> n = length (abstract rows sd)
+  i_count : forall n, sd_count sd = Some n -> n = Z.of_nat (length (abstract rows sd))
 }.
 
 Lemma NoDup_abstract : forall rows sd, Inv rows sd -> NoDup (abstract rows sd).
@@ -115,12 +115,12 @@ Proof.
   - intros x Hx. cbn. apply in_or_app. left. apply (i_added_items _ _ H). auto.
   - intros _ x Hx. apply load_full_items; auto.
   - cbn. intros a Ha. discriminate.
-  - intros n Hn. cbn in Hn. inversion Hn; subst. rewrite load_full_abstract.
+  - intros n Hn. cbn in Hn. inversion Hn; subst. rewrite load_full_abstract. f_equal.
     apply same_elems_length; [exact Hnd | apply NoDup_abstract; auto | apply load_full_items; auto].
 Qed.
 
 Lemma load_full_is_full : forall rows sd, sd_full (load_full rows sd) = true /\
-  sd_count (load_full rows sd) = Some (length (sd_items (load_full rows sd))).
+  sd_count (load_full rows sd) = Some (Z.of_nat (length (sd_items (load_full rows sd)))).
 Proof. intros; split; reflexivity. Qed.
 
 (* every member of a batch ends up fully loaded, consistent with ITS OWN rows, with ITS OWN count *)
@@ -129,12 +129,12 @@ Lemma load_batch_own : forall batch,
   forall rs, In rs batch ->
     In (load_full (fst rs) (snd rs)) (load_batch batch) /\
     Inv (fst rs) (load_full (fst rs) (snd rs)) /\
-    sd_count (load_full (fst rs) (snd rs)) = Some (length (abstract (fst rs) (snd rs))).
+    sd_count (load_full (fst rs) (snd rs)) = Some (Z.of_nat (length (abstract (fst rs) (snd rs)))).
 Proof.
   intros batch H rs Hin. split; [unfold load_batch; apply (in_map (fun rs0 => load_full (fst rs0) (snd rs0))); auto|]. split; [apply load_full_Inv; auto|].
   pose proof (load_full_Inv _ _ (H rs Hin)) as Hi.
   pose proof (i_count _ _ Hi _ eq_refl) as Hc. rewrite load_full_abstract in Hc.
-  change (sd_count (load_full (fst rs) (snd rs))) with (Some (length (sd_items (load_full (fst rs) (snd rs))))). f_equal. exact Hc.
+  change (sd_count (load_full (fst rs) (snd rs))) with (Some (Z.of_nat (length (sd_items (load_full (fst rs) (snd rs)))))). f_equal. exact Hc.
 Qed.
 
 (* ------------------------------------------------------------------ Set.load(obj, items) *)
@@ -253,13 +253,17 @@ Qed.
 (* count() *)
 Lemma do_count_spec : forall rows sd, Inv rows sd ->
   let r := do_count rows sd in
-  fst r = length (abstract rows sd) /\ Inv rows (snd r) /\ abstract rows (snd r) = abstract rows sd.
+  fst r = Z.of_nat (length (abstract rows sd)) /\ Inv rows (snd r) /\ abstract rows (snd r) = abstract rows sd.
 Proof.
-  intros rows sd H. unfold do_count. destruct (sd_count sd) as [n|] eqn:Ec; cbn.
+  intros rows sd H. unfold do_count.
+  assert (Hlen : (Z.of_nat (length rows) + Z.of_nat (length (sd_added sd)) - Z.of_nat (length (sd_removed sd)))%Z = Z.of_nat (length (abstract rows sd))).
+  { unfold abstract. rewrite app_length.
+    pose proof (length_diff_subset rows (sd_removed sd) (i_rows _ _ H) (i_removed _ _ H) (i_removed_rows _ _ H)). lia. }
+  destruct (sd_count sd) as [n|] eqn:Ec; cbn [fst snd].
   - split; [apply (i_count _ _ H); auto | auto].
-  - split; [symmetry; apply length_abstract; auto|]. split; auto.
+  - split; [exact Hlen|]. split; auto.
     constructor; cbn [sd_items sd_added sd_removed sd_full sd_absent sd_count]; try apply H.
-    intros n Hn. inversion Hn; subst. unfold abstract; cbn [sd_added sd_removed]. symmetry. apply (length_abstract _ _ H).
+    intros n Hn. inversion Hn; subst. exact Hlen.
 Qed.
 
 (* is_empty(): first is the row the LIMIT 1 query happens to return *)
@@ -280,7 +284,7 @@ Proof.
   - destruct (sd_items sd) as [|i its] eqn:Ei.
     + destruct (sd_count sd) as [n|] eqn:Ec.
       * cbn. split; [|split; [auto | intros x; tauto]].
-        rewrite Nat.eqb_eq. rewrite (i_count _ _ H n Ec). split; [apply length_zero_iff_nil | intros ->; reflexivity].
+        rewrite Z.eqb_eq. rewrite (i_count _ _ H n Ec). split; [intros Hz; apply length_zero_iff_nil; lia | intros ->; reflexivity].
       * destruct (autoflush rows sd) as [rows1 sd1] eqn:Ea.
         pose proof (autoflush_spec rows sd H) as Hs. rewrite Ea in Hs. cbn [fst snd] in Hs.
         destruct Hs as (Hi1 & Hab & Hadd & Hrem & Hit & Hfu & Hco).
@@ -420,7 +424,7 @@ Proof.
     destruct (Nat.eq_dec y x) as [->|Hne]; [left; left; auto | right; intros Ha; apply Habs in Ha; destruct Ha; auto].
   - intros n Hn. cbn in Hn. destruct (sd_count sd) as [m|] eqn:Ec; [|discriminate]. inversion Hn; subst.
     rewrite (i_count _ _ H m Ec).
-    change (S (length (abstract rows sd))) with (length (x :: abstract rows sd)). symmetry.
+    assert (Hl : length (abstract rows (sd_add sd x)) = length (x :: abstract rows sd)); [|rewrite Hl; cbn [length]; lia].
     apply same_elems_length.
     + apply NoDup_abstract_raw; auto. apply H.
     + constructor; auto. apply NoDup_abstract; auto.
@@ -491,7 +495,7 @@ Proof.
         apply NoDup_abstract_raw; [apply H | cbn; apply NoDup_without; apply H |].
         intros y Hy. cbn in Hy. apply In_without in Hy. apply (i_added_new _ _ H). tauto.
       - intros y. cbn. rewrite Habs. destruct (Nat.eq_dec y x) as [->|Hne]; [tauto|]. split; [intros A; right; auto | intros [A|[A _]]; [congruence | auto]]. }
-    rewrite Hl. reflexivity.
+    rewrite Hl. cbn [length]. lia.
 Qed.
 
 Lemma do_remove_spec : forall x rows sd, Inv rows sd ->
@@ -540,7 +544,7 @@ Proof.
   - intros Hf. rewrite Hf in H2. cbn in H2. apply subsetb_incl; auto.
   - intros a Ha x Hx. rewrite Ha in H1. rewrite forallb_forall in H1. specialize (H1 x Hx).
     apply orb_true_iff in H1. destruct H1 as [A|A]; [left; apply memn_In; auto | right; apply memn_false; apply negb_true_iff; auto].
-  - intros n Hn. rewrite Hn in H0. apply Nat.eqb_eq. auto.
+  - intros n Hn. rewrite Hn in H0. apply Z.eqb_eq. auto.
 Qed.
 
 (* ------------------------------------------------------------------ path independence *)
@@ -587,3 +591,61 @@ Proof. intros. split; [apply load_for_Inv; auto | apply load_for_abstract]. Qed.
 Lemma flush_spec : forall rows sd, Inv rows sd ->
   Inv (flush_rows rows sd) (flush_sd sd) /\ abstract (flush_rows rows sd) (flush_sd sd) = abstract rows sd.
 Proof. intros. split; [apply flush_Inv; auto | apply flush_abstract]. Qed.
+
+(* ------------------------------------------------------------------ one-to-many collections *)
+(* when every asked item has its reference attribute loaded, Set.load(obj, items) has nothing to ask *)
+Lemma load_for_o_loaded : forall loaded rows xs sd, (forall y, In y xs -> loaded y = true) -> load_for_o loaded rows xs sd = sd.
+Proof.
+  intros loaded rows xs sd H. unfold load_for_o.
+  assert (E : filter (fun y => negb (loaded y)) xs = []).
+  { induction xs as [|y xs IH]; cbn; auto. rewrite (H y) by (left; auto). cbn. apply IH. intros; apply H; right; auto. }
+  rewrite E. reflexivity.
+Qed.
+
+(* add on a one-to-many collection, item x loaded: (its reference is known, so if its row points to this owner it is already a
+   known member or a pending removal -- hypothesis Hlink, the reverse-side bookkeeping done by db_reverse_add when x was loaded) *)
+Lemma do_add_o_spec : forall loaded x rows sd, Inv rows sd -> loaded x = true ->
+  (In x rows -> In x (sd_items sd) \/ In x (sd_removed sd)) ->
+  Inv rows (do_add_o loaded x rows sd) /\ (forall y, In y (abstract rows (do_add_o loaded x rows sd)) <-> In y (abstract rows sd) \/ y = x).
+Proof.
+  intros loaded x rows sd H Hl Hlink. unfold do_add_o.
+  destruct (memn x (sd_items sd)) eqn:Em.
+  - apply memn_In in Em. pose proof (i_sound _ _ H x Em) as Hx.
+    destruct (sd_full sd); [split; auto; intros y; split; [auto | intros [A| ->]; auto]|].
+    split; [apply load_full_Inv; auto|]. rewrite load_full_abstract. intros y; split; [auto | intros [A| ->]; auto].
+  - apply memn_false in Em.
+    assert (Hsame : (if sd_full sd then sd else load_for_o loaded rows [x] sd) = sd).
+    { destruct (sd_full sd); auto. apply load_for_o_loaded. intros y [<-|[]]. auto. }
+    rewrite Hsame. assert (Em' : memn x (sd_items sd) = false) by (apply memn_false; auto). rewrite Em'.
+    assert (Hna : ~ In x (abstract rows sd)).
+    { intros Ha. apply In_abstract in Ha. destruct Ha as [[Hr Hnr]|Ha].
+      - destruct (Hlink Hr); contradiction.
+      - apply Em. apply (i_added_items _ _ H). auto. }
+    apply sd_add_spec; auto.
+Qed.
+
+(* remove on a one-to-many collection as the code is: a consistent, fully loaded collection {x} with a known count ends with count -1 *)
+Lemma do_remove_o_refuted :
+  let sd := mksd [7] true [] [] None (Some 1%Z) in
+  Inv [7] sd /\ sd_count (do_remove_o (fun _ => true) 7 [7] sd) = Some (-1)%Z /\ abstract [7] (do_remove_o (fun _ => true) 7 [7] sd) = [].
+Proof.
+  split; [apply inv_b_Inv; reflexivity|]. split; reflexivity.
+Qed.
+
+Lemma do_remove_o_fixed_spec : forall loaded x rows sd, Inv rows sd -> loaded x = true ->
+  (In x rows -> In x (sd_items sd) \/ In x (sd_removed sd)) ->
+  Inv rows (do_remove_o_fixed loaded x rows sd) /\
+  (forall y, In y (abstract rows (do_remove_o_fixed loaded x rows sd)) <-> In y (abstract rows sd) /\ y <> x).
+Proof.
+  intros loaded x rows sd H Hl Hlink. unfold do_remove_o_fixed.
+  destruct (memn x (sd_removed sd)) eqn:Er.
+  - apply memn_In in Er. split; auto. intros y. split; [|tauto]. intros Hy. split; auto. intros ->.
+    apply In_abstract in Hy. destruct Hy as [[_ Hn]|Ha]; [contradiction | eapply removed_not_added; eauto].
+  - apply memn_false in Er.
+    assert (Hsame : (if sd_full sd then sd else load_for_o loaded rows [x] sd) = sd).
+    { destruct (sd_full sd); auto. apply load_for_o_loaded. intros y [<-|[]]. auto. }
+    rewrite Hsame. destruct (memn x (sd_items sd)) eqn:Em.
+    + apply memn_In in Em. apply sd_remove_spec; auto.
+    + apply memn_false in Em. split; auto. intros y. split; [|tauto]. intros Hy. split; auto. intros ->.
+      apply In_abstract in Hy. destruct Hy as [[Hr Hnr]|Ha]; [destruct (Hlink Hr); contradiction | apply Em, (i_added_items _ _ H); auto].
+Qed.
